@@ -1,6 +1,14 @@
 package checks
 
-import "time"
+import (
+	"fmt"
+	"math/rand"
+	"os"
+	"path/filepath"
+	"strconv"
+	"strings"
+	"time"
+)
 
 var hProcLib = []string{"lib_procbuilder.go"}
 
@@ -37,8 +45,133 @@ func C16(tier string) int {
 		Bounds: map[string]interface{}{"unwind": 40, "num_max": 65536, "nops_max": 32768, "opcode_sets": opsets},
 		Rule:   "one obligation per assert site per function/opcode set; non-trivial = negation sent to the solver with a reachable end marker",
 	}
+	// part (b): machines emitted by the real basm front-end (run natively on a generated source family)
+	emitted, rejected, ferrs := c16Emitted(tier, &hp)
+	sp.Configs = append(sp.Configs, emitted...)
+	sp.Bounds["basm_sources"] = len(emitted) + rejected
+	sp.Bounds["basm_sources_rejected_by_the_front_end"] = rejected
+	sp.Assumptions = append(sp.Assumptions,
+		"part (b): sources of a generated family (register indices up to r8, 0-3 inputs/outputs, 3-17 ROM lines, jumps to the last line, mov/inc/dec/add/cpy/clr/jz/j/i2rw/r2owa, register sizes 8/16/32) are assembled NATIVELY by the real basm front-end; for every emitted processor one simulator step from ANY pc inside the ROM and ANY register/port/flag state is decided panic-free (no index outside ROM, registers, ports, opcode list) with pc' <= len(ROM); word width, opcode order and decodability are checked concretely on the emitted machine. bondgo, neuralbond and bmqsim front-ends (floating-point opcodes) are outside")
 	p := LoadProgram(sp.LoadPkgs, sp.Harnesses...)
 	loadS := time.Since(t0).Seconds()
 	outs := RunFamily(p, sp.Configs, sp.Opts)
-	return Finish(sp, outs, t0, loadS)
+	code := Finish(sp, outs, t0, loadS)
+	for _, e := range ferrs {
+		fmt.Println("MACHINERY:", e)
+	}
+	if len(ferrs) > 0 && code == 0 {
+		code = 2
+	}
+	return code
+}
+
+// c16Source renders one basm source of the family.
+func c16Source(seed, rsize, rmax, nin, nout, nlines int) string {
+	r := rand.New(rand.NewSource(int64(seed)))
+	reg := func() string { return fmt.Sprintf("r%d", r.Intn(rmax+1)) }
+	var lines []string
+	// make sure the highest register and every port is mentioned
+	// immediates: mov is matched by the dynamic opcodes rsets5/6/7 and the chooser takes the narrowest
+	// (rsets5) without looking at the value, so a value above 31 cannot be encoded; one source in eight
+	// uses such a value and must be REJECTED by the front-end (before fix bc191a3 it was emitted with an
+	// over-long ROM word), the others stay below 32
+	big := seed%8 == 7
+	imm := func() int {
+		if big {
+			return 32 + r.Intn(200)
+		}
+		return r.Intn(32)
+	}
+	lines = append(lines, fmt.Sprintf("mov r%d, %d", rmax, imm()))
+	for i := 0; i < nin; i++ {
+		lines = append(lines, fmt.Sprintf("i2rw %s, i%d", reg(), i))
+	}
+	for len(lines) < nlines-1-nout {
+		switch r.Intn(7) {
+		case 0:
+			lines = append(lines, fmt.Sprintf("mov %s, %d", reg(), imm()))
+		case 1:
+			lines = append(lines, "inc "+reg())
+		case 2:
+			lines = append(lines, "dec "+reg())
+		case 3:
+			lines = append(lines, fmt.Sprintf("add %s, %s", reg(), reg()))
+		case 4:
+			lines = append(lines, fmt.Sprintf("cpy %s, %s", reg(), reg()))
+		case 5:
+			lines = append(lines, "clr "+reg())
+		default:
+			lines = append(lines, fmt.Sprintf("jz %s, _last", reg()))
+		}
+	}
+	for i := 0; i < nout; i++ {
+		lines = append(lines, fmt.Sprintf("r2owa %s, o%d", reg(), i))
+	}
+	var sb strings.Builder
+	sb.WriteString("%section prog .romtext\n        entry _start\n_start:\n")
+	for _, l := range lines {
+		sb.WriteString("        " + l + "\n")
+	}
+	sb.WriteString("_last:\n        j _start\n%endsection\n%meta cpdef  cpu   romcode: prog, execmode: ha\n")
+	for i := 0; i < nin; i++ {
+		fmt.Fprintf(&sb, "%%meta ioatt  in%d   cp: cpu, index:%d, type:input\n%%meta ioatt  in%d   cp: bm,  index:%d, type:input\n", i, i, i, i)
+	}
+	for i := 0; i < nout; i++ {
+		fmt.Fprintf(&sb, "%%meta ioatt  out%d  cp: cpu, index:%d, type:output\n%%meta ioatt  out%d  cp: bm,  index:%d, type:output\n", i, i, i, i)
+	}
+	fmt.Fprintf(&sb, "%%meta bmdef  global registersize:%d\n", rsize)
+	return sb.String()
+}
+
+func c16Emitted(tier string, hp *Harness) (cfgs []Config, rejected int, errs []string) {
+	if err := BuildNative(); err != nil {
+		return nil, 0, []string{err.Error()}
+	}
+	type src struct{ rsize, rmax, nin, nout, nlines int }
+	var fam []src
+	rmaxs, lens := []int{1, 3, 4}, []int{4, 8, 9}
+	if tier == "thorough" {
+		rmaxs, lens = []int{0, 1, 3, 4, 7, 8}, []int{3, 7, 8, 9, 15, 16, 17}
+	}
+	for _, rs := range []int{8, 16, 32} {
+		for _, rm := range rmaxs {
+			for _, nl := range lens {
+				io := (rm + nl) % 4
+				fam = append(fam, src{rs, rm, io, (io + 1) % 3, nl + io})
+			}
+		}
+	}
+	work := filepath.Join(VerifDir, ".work", fmt.Sprintf("c16-%d", os.Getpid()))
+	os.MkdirAll(work, 0o755)
+	defer os.RemoveAll(work)
+	for i, s := range fam {
+		text := c16Source(Seed()*1000+i, s.rsize, s.rmax, s.nin, s.nout, s.nlines)
+		f := filepath.Join(work, fmt.Sprintf("s%d.basm", i))
+		os.WriteFile(f, []byte(text), 0o644)
+		out, err := Native("basm", f)
+		name := fmt.Sprintf("basm source #%d (Rsize=%d, registers up to r%d, %d inputs, %d outputs, %d lines)", i, s.rsize, s.rmax, s.nin, s.nout, s.nlines)
+		if err != nil {
+			errs = append(errs, name+": "+err.Error())
+			continue
+		}
+		if strings.Contains(out, "BASM-ERROR") {
+			rejected++ // a source the tool cannot fit is rejected with an error: allowed by the property
+			continue
+		}
+		for _, line := range strings.Split(out, "\n") {
+			if !strings.HasPrefix(line, "CP ") {
+				continue
+			}
+			kv := map[string]string{}
+			for _, f := range strings.Fields(line)[2:] {
+				if j := strings.IndexByte(f, '='); j > 0 {
+					kv[f[:j]] = f[j+1:]
+				}
+			}
+			at := func(k string) int { v, _ := strconv.Atoi(kv[k]); return v }
+			cfgs = append(cfgs, Config{Name: name + " " + strings.Fields(line)[0] + strings.Fields(line)[1] + " ops=" + kv["ops"], Func: "zzC16Emitted", Harness: hp,
+				Args: []Arg{I(at("rsize")), I(at("R")), I(at("N")), I(at("M")), I(at("L")), I(at("O")), I(at("wordsize")), S(kv["ops"]), S(kv["rom"])}})
+		}
+	}
+	return cfgs, rejected, errs
 }
